@@ -11,6 +11,8 @@ OUT = (os.environ.get('MATRIX_OUT') or os.path.join(HERE, 'seeded', 'matrix.json
 IDS = "C11 C01 C02 C03 C04 C05 C06 C07 C08 C09 C10 C12 C13 C14 C15 C16 C17 C18 C19".split()
 env = dict(os.environ, VERIF_DRIVER='/verif/factdump/target/release/factdump', VERIF_TMPLX='/verif/tmplx/target/release/tmplx', VERIF_REPO=WT, VERIF_CACHE='/tmp/matrix-cache' + SFX, VERIF_EVIDENCE_DIR='/tmp/matrix-evidence' + SFX, VERIF_REPLAY_DIR='/tmp/matrix-replays' + SFX, VERIF_SCRATCH='/tmp/matrix-scratch' + SFX, VERIF_CACHE_KEEP='1', P='5')
 
+VERIF_COMMIT = subprocess.run('git -C /verif rev-parse --short HEAD', shell=True, capture_output=True, text=True).stdout.strip()
+
 def main():
     if not os.path.exists(WT):
         subprocess.run('git -C /repo worktree add -q --detach %s HEAD' % WT, shell=True, check=True)
@@ -23,7 +25,10 @@ def main():
         vf = os.path.join(HERE, 'seeded', inc, 'validation.json')
         if os.path.exists(vf):
             unconfirmed |= {k + sfx for k, v in json.load(open(vf)).items() if not v.get('confirmed')}
-    seeds = sorted(glob.glob(HERE + '/seeded/_incoming*/C*/[0-9]/patch.diff')) + sorted(glob.glob(HERE + '/seeded/_negative/*.diff')) + sorted(glob.glob(HERE + '/seeded/_revert/*.diff'))
+    # negative controls and reverted fixes first, then the latest round backwards (if time runs out the oldest rounds keep older rows)
+    seeds = sorted(glob.glob(HERE + '/seeded/_negative/*.diff')) + sorted(glob.glob(HERE + '/seeded/_revert/*.diff'))
+    for inc in sorted(glob.glob(HERE + '/seeded/_incoming*'), reverse=True):
+        seeds += sorted(glob.glob(inc + '/C*/[0-9]/patch.diff'))
     only = sys.argv[1:]
     for n_seed, p in enumerate(seeds):
         if n_seed % SH_N != SH_I:
@@ -46,8 +51,9 @@ def main():
             m = re.match(r'^(C\d+) rc=(\d+) violations=(\d+) errors=(\d+)\s*(.*)$', l)
             if m:
                 row[m.group(1)] = {'rc': int(m.group(2)), 'violations': int(m.group(3)), 'errors': int(m.group(4)), 'rules': m.group(5).strip()}
+        row['_at'] = {'verif': VERIF_COMMIT, 'repo': head[:7]}
         res[key] = row
-        caught = [c for c, v in row.items() if v['rc'] == 1]
+        caught = [c for c, v in row.items() if not c.startswith('_') and v['rc'] == 1]
         print(key, 'caught by', caught, flush=True)
         json.dump(res, open(OUT, 'w'), indent=1)
     subprocess.run('git checkout -q -- . && git clean -fdq', shell=True, cwd=WT)
